@@ -373,7 +373,23 @@ def op_quote(code, k, style):
     q = t.string[0]
     other = '"' if q == "'" else "'"
     body = t.string[1:-1]
-    if style == "flip":
+    lines = code.splitlines(keepends=True)
+    if style in ("flipinject", "mix"):
+        if other in body or "\\" in body:
+            return code
+        if style == "flipinject":  # "abc" -> 'a"bc'
+            mid = len(body) // 2
+            new = other + body[:mid] + q + body[mid:] + other
+        else:  # "abc" + x + "def"  ->  'abc' + x + "d'ef": mixed quoting, the first literal's delimiter occurs in the next one
+            new = other + body + other
+            nxt = toks[(k % len(toks)) + 1] if (k % len(toks)) + 1 < len(toks) else None
+            if nxt is None or nxt.string[0] != q or nxt.start[0] == t.start[0] and nxt.start[1] < t.end[1] or "\\" in nxt.string:
+                return code
+            nb = nxt.string[1:-1]
+            m2 = len(nb) // 2
+            l2 = lines[nxt.start[0] - 1]
+            lines[nxt.start[0] - 1] = l2[: nxt.start[1]] + q + nb[:m2] + other + nb[m2:] + q + l2[nxt.end[1]:]
+    elif style == "flip":
         if other in body or "\\" in body:
             return code
         new = other + body + other
@@ -382,7 +398,6 @@ def op_quote(code, k, style):
         if "\\" in body[max(0, mid - 1):mid + 1]:
             return code
         new = q + body[:mid] + other + body[mid:] + q
-    lines = code.splitlines(keepends=True)
     l = lines[t.start[0] - 1]
     lines[t.start[0] - 1] = l[: t.start[1]] + new + l[t.end[1]:]
     return "".join(lines)
@@ -562,7 +577,7 @@ def part_ops():
             st.tuples(st.just("sameline"), st.integers(0, 5)).map(list),
             st.tuples(st.just("nest"), st.integers(0, 5)).map(list),
             st.tuples(st.just("addarg"), st.integers(0, 5), st.sampled_from(["pos", "kw", "star", "comma"])).map(list),
-            st.tuples(st.just("quote"), st.integers(0, 5), st.sampled_from(["flip", "inject"])).map(list),
+            st.tuples(st.just("quote"), st.integers(0, 5), st.sampled_from(["flip", "inject", "flipinject", "mix"])).map(list),
             st.tuples(st.just("tuplerhs"), st.integers(0, 5), st.sampled_from(["tuple", "lambda"])).map(list),
         ),
         max_size=3,
